@@ -29,12 +29,17 @@ type ParserData struct {
 	// break/continue must close them before jumping, or the VM's block stack leaks one slot per jump
 	openBlocks      int
 	openBlocksStack []int
-	codeStack       []struct {
+	// template holes opened ({ / {% emitted fstr.block.push, the pop not yet) inside the innermost loop body:
+	// a break/continue written inside a hole leaves them too
+	openHoles      int
+	openHolesStack []int
+	codeStack      []struct {
 		code       []ByteCode
 		index      int
 		textPos    int
 		loopLayer  int
 		openBlocks int
+		openHoles  int
 	}
 }
 
@@ -58,6 +63,8 @@ func (e *ParserData) LoopBegin() {
 	}{continueIndex: len(e.continueStack), breakIndex: len(e.breakStack)})
 	e.openBlocksStack = append(e.openBlocksStack, e.openBlocks)
 	e.openBlocks = 0
+	e.openHolesStack = append(e.openHolesStack, e.openHoles)
+	e.openHoles = 0
 }
 
 func (e *ParserData) LoopEnd() {
@@ -68,13 +75,21 @@ func (e *ParserData) LoopEnd() {
 	e.loopInfo = e.loopInfo[:len(e.loopInfo)-1]
 	e.openBlocks = e.openBlocksStack[len(e.openBlocksStack)-1]
 	e.openBlocksStack = e.openBlocksStack[:len(e.openBlocksStack)-1]
+	e.openHoles = e.openHolesStack[len(e.openHolesStack)-1]
+	e.openHolesStack = e.openHolesStack[:len(e.openHolesStack)-1]
 }
 
-// closeOpenBlocks emits one block.pop per if-block that a break/continue is about to leave.
-func (e *ParserData) closeOpenBlocks() {
+// closeOpenBlocks emits one block.pop per if-block and one fstr.block.pop per template hole that a
+// break/continue is about to leave. It reports whether a hole was left: the jump then starts in the
+// middle of an expression, with the pieces of the unfinished template still on the stack.
+func (e *ParserData) closeOpenBlocks() bool {
+	for i := 0; i < e.openHoles; i++ {
+		e.WriteCode(typeFStringBlockPop, nil)
+	}
 	for i := 0; i < e.openBlocks; i++ {
 		e.WriteCode(typeBlockPop, nil)
 	}
+	return e.openHoles > 0
 }
 
 func (e *ParserData) checkStackOverflow() bool {
@@ -118,6 +133,10 @@ func (e *ParserData) AddOp(operator CodeType) {
 		e.openBlocks++
 	case typeBlockPop:
 		e.openBlocks--
+	case typeFStringBlockPush:
+		e.openHoles++
+	case typeFStringBlockPop:
+		e.openHoles--
 	}
 	e.WriteCode(operator, val)
 }
@@ -210,7 +229,13 @@ func (p *ParserData) ContinuePush() error {
 		if p.continueStack == nil {
 			p.continueStack = []IntType{}
 		}
-		p.closeOpenBlocks()
+		if p.closeOpenBlocks() {
+			// continue 写在模板的 {} 里：回到循环开头之前，把操作数栈恢复到循环开始时的高度
+			// (循环自己的 block 记着这个高度)，否则每跳一次栈上就多留下模板已经算好的几段
+			p.WriteCode(typeBlockPop, nil)
+			p.WriteCode(typePop, nil)
+			p.WriteCode(typeBlockPush, nil)
+		}
 		p.AddOp(typeJmp)
 		p.continueStack = append(p.continueStack, IntType(p.codeIndex)-1)
 	} else {
@@ -403,13 +428,15 @@ func (p *ParserData) CodePush(textPos int) {
 		textPos    int
 		loopLayer  int
 		openBlocks int
-	}{code: p.code, index: p.codeIndex, textPos: textPos, loopLayer: p.loopLayer, openBlocks: p.openBlocks})
+		openHoles  int
+	}{code: p.code, index: p.codeIndex, textPos: textPos, loopLayer: p.loopLayer, openBlocks: p.openBlocks, openHoles: p.openHoles})
 	p.code = make([]ByteCode, 256)
 	p.codeIndex = 0
 	// a function or computed body is compiled into its own code block: a loop
 	// around the definition is not a loop that its break/continue could leave
 	p.loopLayer = 0
 	p.openBlocks = 0
+	p.openHoles = 0
 }
 
 func (p *ParserData) CodePop() ([]ByteCode, int, int) {
@@ -422,5 +449,6 @@ func (p *ParserData) CodePop() ([]ByteCode, int, int) {
 	p.codeIndex = info.index
 	p.loopLayer = info.loopLayer
 	p.openBlocks = info.openBlocks
+	p.openHoles = info.openHoles
 	return lastCode, lastIndex, info.textPos
 }
